@@ -11,7 +11,7 @@ def replay(args, outdir):
         return r
     H.FakeRead = mk
     a, lemma = args['cex'], args['lemma']
-    fn = {'L1_pick_best_base_call': H._l1_pick_best, 'L2_mate_overlap': H._l2_mates, 'L3_majority': H._l3_majority, 'L4_order_duplication': H._l4_order}[lemma]
+    fn = {'L1_pick_best_base_call': H._l1_pick_best, 'L2_mate_overlap': H._l2_mates, 'L2b_dovetail_window': H._l2b_dovetail, 'L3_majority': H._l3_majority, 'L4_order_duplication': H._l4_order}[lemma]
     try:
         ok = fn(**a)
     except Exception as e:
